@@ -81,8 +81,8 @@ def compare(ctx, smis, seeds, set_programs=None):
         with tempfile.NamedTemporaryFile('w', suffix='.json', delete=False, dir=str(VERIF / 'harness')) as f:
             json.dump([p for _, p in set_programs], f)
             progfile = f.name
-    # read - perturb - read histories (c19_worker.PERTURB) on a rotating quarter of the molecules (all of them for small sets)
-    pmod = [4, ctx_seed(ctx) % 4] if len(smis) > 8 else [1, 0]
+    # read - perturb - read histories (c19_worker.PERTURB) on a rotating fifth of the molecules (all of them for small sets)
+    pmod = [5, ctx_seed(ctx) % 5] if len(smis) > 8 else [1, 0]
     with tempfile.NamedTemporaryFile('w', suffix='.json', delete=False, dir=str(VERIF / 'harness')) as f:
         json.dump({'smiles': smis, 'queries': QUERIES, 'variations': False, 'set_programs_file': progfile, 'perturb_mod': pmod}, f)
         spec = f.name
